@@ -22,7 +22,7 @@ TRUSTED = ["the real gotree binary is run by the driver (build/gotree, go build 
            "Tips() order of a tree parsed from Newick = order of the names in the text"]
 ASSUMPTIONS = ["math/rand: each rand.Intn(b) is uniform on [0,b) and successive calls are independent (the counting theorems range over "
                "the product space of choice vectors); Intn/Int31n/Perm transcribed in Model/Rand.v"]
-LEVEL_TEXT = ("counting theorems in coq/Properties/C20.v over all choice vectors about Model/Sampling.v and Model/TreeGen.v; the "
+LEVEL_TEXT = ("counting theorems in coq/Properties/C20.v and C20Extra8.v (per-item inclusion probability min(k,n)/n, slot marginals and product form with replacement, all n and k) over all choice vectors about Model/Sampling.v and Model/TreeGen.v; the "
               "transcribed loops are tied to the binary by exact per-seed prediction from the recorded random stream")
 LEVEL_NOTE = ("the reservoir index of cmd/sample.go and cmd/prune.go was false of the code as first read (rand.Intn(i)); fixed in /repo "
               "(202a79d, 4c6febb), the model constant code_bound follows the code; the rooted uniform generator stays an open finding")
